@@ -68,6 +68,7 @@ def shape_cases(names=None, seeds=(0, 1, 2), cfgs=None, slow_variants=True) -> l
     cfgs = cfgs or [{"njob": 2, "resources": "gpu:2"}]
 
     def history(proj, cfg, s, delay):
+        cfg = dict(cfg, **proj.get("cfg", {}))   # what the shape needs (e.g. --no-clean)
         phases = [dict(initial_phase(proj, cfg=cfg, seed=s), delay=delay)]
         # second phase: switch every versioned source to its second version, one at a time
         for path, vers in proj["sources"].items():
